@@ -503,7 +503,7 @@ class FGen:
                 ops.append(["if", cond, then, [], els, self.s(cond)])
             elif self.allow_end and in_cond:
                 q = rng.random()
-                ops.append(["fail"] if q < 0.45 else ["switch", rng.choice(names)] if q < 0.85 else ["restart"])
+                ops.append(["fail"] if q < 0.4 else ["switch", rng.choice(names)] if q < 0.7 else ["restart"])
         return ops
 
     @staticmethod
